@@ -8,6 +8,7 @@ import os, sys, subprocess, shutil, json, re, glob, tempfile
 VERIF = os.path.dirname(os.path.dirname(os.path.abspath(__file__)))
 sys.path.insert(0, os.path.join(VERIF, 'selftest'))
 import mutants
+sys.path.insert(0, os.path.dirname(os.path.abspath(__file__)))
 args = [a for a in sys.argv[1:] if not a.startswith('--')]
 S = tempfile.mkdtemp(prefix='pdb-selftest.')
 REPO = os.path.join(S, 'repo')
@@ -19,13 +20,13 @@ sh(['rsync', '-a', '--exclude', 'target', '--exclude', '.git', '/repo/', PRISTIN
 sh(['rsync', '-a', PRISTINE + '/', REPO + '/'], check=True)
 env = dict(os.environ, PDB_REPO=REPO, PDB_CACHE=CACHE)
 claimed = [c['property_id'] for c in json.load(open(os.path.join(VERIF, 'MANIFEST.json')))['checks']]
+import _runchecks
 def run_checks(props):
     out = {}
-    for p in props:
-        r = sh([os.path.join(VERIF, 'check'), p], cwd=VERIF, env=env, stdout=subprocess.PIPE, stderr=subprocess.STDOUT, text=True)
-        keys = re.findall(r'^VIOLATED \[[^\]]*\] (.*)$', r.stdout, re.M)
-        fatal = 'FATAL' in r.stdout or 'Traceback' in r.stdout
-        out[p] = (r.returncode, keys, fatal, r.stdout[-600:] if fatal else '')
+    for p, (rc, txt) in _runchecks.run(props, env).items():
+        keys = re.findall(r'^VIOLATED \[[^\]]*\] (.*)$', txt, re.M)
+        fatal = 'FATAL' in txt or 'Traceback' in txt
+        out[p] = (rc, keys, fatal, txt[-600:] if fatal else '')
     return out
 def restore():
     sh(['rsync', '-a', '--delete', PRISTINE + '/', REPO + '/'], check=True)
